@@ -13,6 +13,9 @@ parts
                   definition (week_year, week, weeks in year) == the week-1 model wherever the model is defined
   iso-stdlib  : ISO rule in the ISO calendar == datetime.date.isocalendar() (years 1-9999); from_week_year_week_and_day ==
                 date.fromisocalendar for all (year, week 1-53, weekday), raising exactly when the stdlib rejects.
+  int-forms   : every entry point taking an IsoDayOfWeek (next / previous / *_or_same / DateAdjusters.* / LocalDateTime.next|previous / n-th weekday /
+                from_week_year_week_and_day / get_local_date / the rule factories' first day of week) is also driven with int(member) and with the
+                plain int IntEnum arithmetic yields; all forms must agree with the model (a route refusing ints with TypeError/ValueError is recorded).
   long-history: one shared rule object per rule answers > 1024 distinct week-years in two interleaved calendars, then early years are re-asked
                 (sequential history on per-rule state; thread interleavings on such state belong to C13).
   navigation  : LocalDate.next/previous, DateAdjusters.next/previous/next_or_same/previous_or_same, LocalDateTime.next/previous:
@@ -35,6 +38,25 @@ LEVEL = "model_checking"
 DOWS = [IsoDayOfWeek(k) for k in range(1, 8)]
 DOWN = {k: IsoDayOfWeek(k).name for k in range(1, 8)}
 BCL = {"FIRST_DAY": 1, "FIRST_FOUR_DAY_WEEK": 4, "FIRST_FULL_WEEK": 7}
+
+
+def dow_forms(t):
+    """The ways a caller can hand over weekday t: the enum member, int(member) (what datetime.date.isoweekday() returns) and the
+    plain int that IntEnum arithmetic yields (yesterday % 7 + 1).  Every entry point validates by numeric range, so all three name
+    the same weekday."""
+    return (("member", DOWS[t - 1]), ("int", int(DOWS[t - 1])), ("intenum-arithmetic", DOWS[(t - 2) % 7] % 7 + 1))
+
+
+_INT_REFUSED = set()      # routes that refuse plain ints with TypeError / ValueError (recorded, not demanded)
+
+
+def _int_refused(acc, route, form, got):
+    """True when a non-member form was refused with TypeError/ValueError: the route does not take ints - recorded, not a violation."""
+    if form != "member" and isinstance(got, _Raised) and isinstance(got.e, (TypeError, ValueError)) and "range" not in str(got.e).lower():
+        _INT_REFUSED.add(route)
+        acc.degrade("route %s does not accept a plain-int weekday (%s); int forms not demanded there" % (route, type(got.e).__name__))
+        return True
+    return False
 
 
 def all_rules():
@@ -164,6 +186,15 @@ def w_weekyear(job):
                         continue
                     what = "%s on %s %s: week-year %d week %d of %d" % (rid, cid, dl.ymd(d), wy, wk, weeks)
                     ok = True
+                    if n == S:          # the weekday given as a plain int must name the same day
+                        for form, arg in dow_forms(dws[i])[1:]:
+                            acc.count(transitions=1, evaluations=1)
+                            b2 = _call(rule.get_local_date, wy, wk, arg, cal)
+                            if _int_refused(acc, "IWeekYearRule.get_local_date", form, b2):
+                                continue
+                            if isinstance(b2, _Raised) or b2 != d:
+                                acc.violation("C16/%s/weekyear/%s/get_local_date-int-weekday/arg-%s" % (cid, kind, form), what + "; get_local_date with the weekday given as %s = %r gives %s" % (
+                                    form, arg, b2.e if isinstance(b2, _Raised) else dl.ymd(b2)), dict(case, argument_form=form))
                     if back != d:
                         acc.violation(K % "roundtrip", what + "; get_local_date gives %s" % (dl.ymd(back),), case, py=_py_week(cid, rid, dl.ymd(d)))
                         ok = False
@@ -262,6 +293,17 @@ def w_iso_stdlib(job):
                     continue        # the stdlib range ends inside this week; pyoda's range is wider - not comparable
                 got = _call(LocalDate.from_week_year_week_and_day, y, wk, DOWS[wd - 1])
                 case = {"kind": "fromiso", "week_year": y, "week": wk, "weekday": wd}
+                if exp is not None and y % 16 == 0:
+                    for form, arg in dow_forms(wd)[1:]:
+                        acc.count(transitions=1, evaluations=1)
+                        g2 = _call(LocalDate.from_week_year_week_and_day, y, wk, arg)
+                        if _int_refused(acc, "LocalDate.from_week_year_week_and_day", form, g2):
+                            continue
+                        if isinstance(g2, _Raised) or dl.ymd(g2) != (exp.year, exp.month, exp.day):
+                            acc.violation("C16/ISO/from_week_year_week_and_day/int-weekday/arg-%s" % form, "from_week_year_week_and_day(%d, %d, weekday %d given as %s) gives %s, fromisocalendar gives %s" % (
+                                y, wk, wd, form, g2.e if isinstance(g2, _Raised) else dl.ymd(g2), exp), dict(case, argument_form=form))
+                        else:
+                            acc.outcome("fromiso:int-form-" + form)
                 wcls = "week-%s" % ("0" if wk == 0 else "54" if wk == 54 else "53" if wk == 53 else "1" if wk == 1 else "mid")
                 if exp is None:
                     if not isinstance(got, _Raised):
@@ -312,6 +354,52 @@ def w_long_history(job):
     return acc
 
 
+# ------------------------------------------------------------------------------------------------ rule factories given int weekdays
+def w_int_rules(job):
+    """WeekYearRules.for_min_days_in_first_week / from_calendar_week_rule with the first day of week given as a plain int: the rule must
+    behave exactly like the week-1 definition with that weekday (and like the rule built from the enum member)."""
+    tier, rule_ids = job
+    acc = Acc()
+    cal = CalendarSystem.iso
+    hi = dl.cal_range(cal)[1]
+    model = wr.WeekModel(lambda y: dl.year_start(cal, y), cal.min_year, cal.max_year, hi)
+    years = range(2015, 2027) if tier == "quick" else range(1990, 2060)
+    classes = set()
+    for rid in rule_ids:
+        _, kind, spec, mk = _rule_obj(rid)
+        md, fd, irregular = spec
+        for form, arg in dow_forms(fd)[1:]:
+            route = "WeekYearRules.%s" % ("from_calendar_week_rule" if irregular else "for_min_days_in_first_week")
+            rule = _call(lambda: WeekYearRules.from_calendar_week_rule(getattr(CalendarWeekRule, rid.split("-")[1]), arg) if irregular else WeekYearRules.for_min_days_in_first_week(md, arg))
+            if _int_refused(acc, route, form, rule):
+                continue
+            case = {"kind": "introle", "rule": rid, "argument_form": form}
+            if isinstance(rule, _Raised):
+                acc.violation("C16/ISO/%s/int-first-day/raises-%s/arg-%s" % (route, type(rule.e).__name__, form), "%s with first day %s given as %s raised %s" % (route, DOWN[fd], form, rule.e), case)
+                continue
+            classes.add((kind, form))
+            for y in years:
+                S = dl.year_start(cal, y)
+                for n in range(S - 8, S + 9):
+                    d = dl.from_daynum(n, cal)
+                    acc.count(states=1, transitions=1, evaluations=4)
+                    exp = model.locate(n, d.year, spec)
+                    got = _call(lambda: (rule.get_week_year(d), rule.get_week_of_week_year(d)))
+                    ok = not isinstance(got, _Raised) and got == exp
+                    if ok:
+                        back = _call(lambda: (rule.get_local_date(got[0], got[1], d.day_of_week, cal), rule.get_local_date(got[0], got[1], int(d.day_of_week), cal), rule.get_weeks_in_week_year(got[0], cal)))
+                        ok = not isinstance(back, _Raised) and back[0] == d and back[1] == d and back[2] == model.weeks_in(got[0], spec)
+                        got = (got, back.e if isinstance(back, _Raised) else (dl.ymd(back[0]), dl.ymd(back[1]), back[2]))
+                    if not ok:
+                        acc.violation("C16/ISO/%s/int-first-day/%s/arg-%s" % (route, kind, form), "%s built with first day of week %s given as %s = %r: on %s gives %r, the week-1 definition gives %r" % (
+                            rid, DOWN[fd], form, arg, dl.ymd(d), got.e if isinstance(got, _Raised) else got, exp), dict(case, date=dl.ymd(d)))
+                        break
+                    acc.outcome("int-rule:%s:%s" % (kind, form))
+    acc.sample({"part": "int-forms", "rules": len(rule_ids), "years": [years[0], years[-1]], "forms": ["int", "intenum-arithmetic"]})
+    acc.note("classes", sorted("introle/%s/%s" % c for c in classes))
+    return acc
+
+
 # ------------------------------------------------------------------------------------------------ navigation
 def nav_dates(cal, tier):
     lo, hi = dl.cal_range(cal)
@@ -342,51 +430,60 @@ def w_navigation(job):
         acc.count(states=1)
         for name, strict, direction, fn in ops:
             for t in range(1, 8):
-                acc.count(transitions=1, evaluations=1)
                 exp = wr.scan_next(n, t, strict) if direction > 0 else wr.scan_prev(n, t, strict)
                 rel = "same-weekday" if wr.dow(n) == t else "other-weekday"
                 where = "near-range-start" if n - lo < 7 else "near-range-end" if hi - n < 7 else "interior"
-                cls = "%s-%s" % (rel, where)
-                classes.add((name, cls))
-                case = {"kind": "nav", "calendar": cid, "date": dl.ymd(d), "op": name, "weekday": t}
-                got = _call(fn, d, DOWS[t - 1])
-                K = "C16/%s/%s/%%s/%s" % (cid, name, cls)
-                if not (lo <= exp <= hi):
-                    if not isinstance(got, _Raised):
-                        acc.violation(K % "no-raise-outside-range", "%s(%s, %s) leaves the calendar range but returned %s" % (name, dl.ymd(d), DOWN[t], dl.ymd(got)), case)
+                for form, arg in dow_forms(t):
+                    acc.count(transitions=1, evaluations=1)
+                    cls = "%s-%s" % (rel, where) + ("" if form == "member" else "/arg-" + form)
+                    classes.add((name, cls))
+                    case = {"kind": "nav", "calendar": cid, "date": dl.ymd(d), "op": name, "weekday": t, "argument_form": form}
+                    got = _call(fn, d, arg)
+                    K = "C16/%s/%s/%%s/%s" % (cid, name, cls)
+                    if not (lo <= exp <= hi):
+                        if not isinstance(got, _Raised):
+                            acc.violation(K % "no-raise-outside-range", "%s(%s, %s as %s) leaves the calendar range but returned %s" % (name, dl.ymd(d), DOWN[t], form, dl.ymd(got)), case)
+                        else:
+                            acc.outcome("nav:raises-outside-range")
+                        continue
+                    if _int_refused(acc, name, form, got):
+                        continue
+                    if isinstance(got, _Raised):
+                        acc.violation(K % ("raises-%s" % type(got.e).__name__), "%s(%s, %s as %s) raised %s: %s" % (name, dl.ymd(d), DOWN[t], form, type(got.e).__name__, str(got.e)[:100]), case)
+                        continue
+                    if got != dl.from_daynum(exp, cal):
+                        acc.violation(K % "nearest-weekday", "%s(%s [%s], %s given as %s = %r) = %s, brute-force scan gives %s" % (
+                            name, dl.ymd(d), DOWN[wr.dow(n)], DOWN[t], form, arg, dl.ymd(got), dl.ymd(dl.from_daynum(exp, cal))), case,
+                            py=_py_nav(cid, dl.ymd(d), name, t, dl.ymd(dl.from_daynum(exp, cal)), form))
                     else:
-                        acc.outcome("nav:raises-outside-range")
-                    continue
-                if isinstance(got, _Raised):
-                    acc.violation(K % ("raises-%s" % type(got.e).__name__), "%s(%s, %s) raised %s: %s" % (name, dl.ymd(d), DOWN[t], type(got.e).__name__, str(got.e)[:100]), case)
-                    continue
-                if got != dl.from_daynum(exp, cal):
-                    acc.violation(K % "nearest-weekday", "%s(%s [%s], %s) = %s, brute-force scan gives %s" % (name, dl.ymd(d), DOWN[wr.dow(n)], DOWN[t], dl.ymd(got), dl.ymd(dl.from_daynum(exp, cal))), case,
-                                  py=_py_nav(cid, dl.ymd(d), name, t, dl.ymd(dl.from_daynum(exp, cal))))
-                else:
-                    acc.outcome("nav:%s:%s" % (name.split(".")[-1], rel))
+                        acc.outcome("nav:%s:%s:%s" % (name.split(".")[-1], rel, form))
         # LocalDateTime.next / previous keep the time of day
         if n % 5 == 0:
             ldt = d.at(noon)
             for t in range(1, 8):
                 for name, direction in (("LocalDateTime.next", +1), ("LocalDateTime.previous", -1)):
-                    acc.count(transitions=1, evaluations=1)
                     exp = wr.scan_next(n, t) if direction > 0 else wr.scan_prev(n, t)
                     if not (lo <= exp <= hi):
                         continue
-                    got = _call(ldt.next if direction > 0 else ldt.previous, DOWS[t - 1])
-                    if isinstance(got, _Raised) or got.date != dl.from_daynum(exp, cal) or got.time_of_day != noon:
-                        acc.violation("C16/%s/%s/nearest-weekday/%s" % (cid, name, "same-weekday" if wr.dow(n) == t else "other-weekday"),
-                                      "%s(%s 12:34:56, %s) gives %r" % (name, dl.ymd(d), DOWN[t], got.e if isinstance(got, _Raised) else got), {"kind": "nav", "calendar": cid, "date": dl.ymd(d), "op": name, "weekday": t})
+                    for form, arg in dow_forms(t):
+                        acc.count(transitions=1, evaluations=1)
+                        got = _call(ldt.next if direction > 0 else ldt.previous, arg)
+                        if _int_refused(acc, name, form, got):
+                            continue
+                        if isinstance(got, _Raised) or got.date != dl.from_daynum(exp, cal) or got.time_of_day != noon:
+                            acc.violation("C16/%s/%s/nearest-weekday/%s%s" % (cid, name, "same-weekday" if wr.dow(n) == t else "other-weekday", "" if form == "member" else "/arg-" + form),
+                                          "%s(%s 12:34:56, %s as %s) gives %r" % (name, dl.ymd(d), DOWN[t], form, got.e if isinstance(got, _Raised) else got),
+                                          {"kind": "nav", "calendar": cid, "date": dl.ymd(d), "op": name, "weekday": t, "argument_form": form})
     acc.sample({"part": "navigation", "calendar": cid, "dates": len(nav_dates(cal, tier)), "ops": [o[0] for o in ops]})
     acc.note("classes", sorted("%s/nav/%s/%s" % ((cid,) + c) for c in classes))
     return acc
 
 
-def _py_nav(cid, ymd, name, t, exp):
+def _py_nav(cid, ymd, name, t, exp, form="member"):
     call = {"LocalDate.next": "d.next(w)", "LocalDate.previous": "d.previous(w)"}.get(name, "%s(w)(d)" % name if name.startswith("DateAdjusters") else "d.with_date_adjuster(DateAdjusters.next_or_same(w))")
     return ("from pyoda_time import CalendarSystem, DateAdjusters, IsoDayOfWeek, LocalDate\n\n\ndef test_replay():\n    cal = CalendarSystem.for_id(%r)\n"
-            "    d = LocalDate(%d, %d, %d, cal)\n    w = IsoDayOfWeek(%d)\n    r = %s\n    assert (r.year, r.month, r.day) == %r\n" % ((cid,) + tuple(ymd) + (t, call, tuple(exp))))
+            "    d = LocalDate(%d, %d, %d, cal)\n    w = %s\n    r = %s\n    assert (r.year, r.month, r.day) == %r\n" % ((cid,) + tuple(ymd) + (
+                "IsoDayOfWeek(%d)" % t if form == "member" else "%d  # plain int, e.g. datetime.date.isoweekday()" % t if form == "int" else "IsoDayOfWeek(%d) %% 7 + 1  # IntEnum arithmetic gives a plain int" % ((t - 2) % 7 + 1), call, tuple(exp))))
 
 
 # ------------------------------------------------------------------------------------------------ n-th weekday of month
@@ -410,6 +507,17 @@ def w_nth(job):
                     cls = "occurrence-%d%s/%s" % (occ, "-as-last-of-4" if occ == 5 and n_occ == 4 else "", "weekday-of-the-1st" if t == first_dow else "weekday-%s-the-1st" % ("after" if (t - first_dow) % 7 <= 3 else "before"))
                     classes.add((dim, cls))
                     case = {"kind": "nth", "year": y, "month": m, "occurrence": occ, "weekday": t}
+                    if y % 8 == 0 or y < 1 or y > 9990:
+                        for form, arg in dow_forms(t)[1:]:
+                            acc.count(transitions=1, evaluations=1)
+                            g2 = _call(LocalDate.from_year_month_week_and_day, y, m, occ, arg)
+                            if _int_refused(acc, "LocalDate.from_year_month_week_and_day", form, g2):
+                                continue
+                            if isinstance(g2, _Raised) or dl.ymd(g2) != (y, m, exp):
+                                acc.violation("C16/ISO/from_year_month_week_and_day/int-weekday/%s/arg-%s" % (cls, form), "from_year_month_week_and_day(%d, %d, %d, %s given as %s = %r) gives %s; scan of the month gives day %d" % (
+                                    y, m, occ, DOWN[t], form, arg, g2.e if isinstance(g2, _Raised) else dl.ymd(g2), exp), dict(case, argument_form=form))
+                            else:
+                                acc.outcome("nth:int-form-" + form)
                     got = _call(LocalDate.from_year_month_week_and_day, y, m, occ, DOWS[t - 1])
                     py = ("from pyoda_time import IsoDayOfWeek, LocalDate\n\n\ndef test_replay():\n    d = LocalDate.from_year_month_week_and_day(%d, %d, %d, IsoDayOfWeek.%s)\n"
                           "    assert (d.year, d.month, d.day) == (%d, %d, %d)\n    assert d.day_of_week == IsoDayOfWeek.%s\n" % (y, m, occ, DOWN[t], y, m, exp, DOWN[t]))
@@ -475,6 +583,7 @@ def run(ctx):
         iso_jobs = [("quick", y, min(10000, y + 625), False) for y in range(1, 10000, 625)] + [("quick", y, y + 50, True) for y in range(1800, 2200, 50)]
     part("iso-stdlib", w_iso_stdlib, iso_jobs)
     part("long-history", w_long_history, [(tier, r) for r in ("iso", "reg-min1-SUNDAY", "bcl-FIRST_FULL_WEEK-MONDAY")])
+    part("int-forms", w_int_rules, [(tier, rr) for rr in _split([r[0] for r in RULES if r[1] != "iso"], 10)])
     part("navigation", w_navigation, [(cid, tier) for cid, _ in cals])
     iso = CalendarSystem.iso
     ny = set(range(1800, 2200)) | {iso.min_year, iso.min_year + 1, -1, 0, 1, 2, 9998, iso.max_year}
@@ -510,6 +619,8 @@ def replay(rec):
         y = case["date"][0]
         ys = [yy for yy in (y, y + 1) if cal.min_year <= yy <= cal.max_year]
         return key in w_weekyear((case["calendar"], "quick", [case["rule"]], ys, True)).violations
+    if kind == "introle":
+        return key in w_int_rules((rec.get("tier", "quick"), [case["rule"]])).violations
     if kind == "history":
         return key in w_long_history((rec.get("tier", "quick"), case["rule"])).violations
     if kind == "nth":
